@@ -633,7 +633,7 @@ def scenarios_c03(tier, seed):
             for k in range(1, 5):
                 add(product, [dict(name="lock", cut_after=k), dict(name="ndef"), dict(name="lock"), dict(name="ndef")],
                     "-lock-cut%d-%s" % (k, nak), nak=nak)
-            if fam in ("ulc", "ntag", "ev1"):
+            if fam in ("ulc", "ntag"):            # (protect(password) of the EV1 classes is C20's vendor stage)
                 # lock bits on a password protected tag (authenticated or not), and a password after the lock bits
                 for rp in (False, True):
                     add(product, [dict(name="lock"), dict(name="auth", pw=good), dict(name="lock"), dict(name="ndef"),
@@ -831,3 +831,36 @@ def replay(rep, args, pid):
         print("VIOLATION property=%s replay=%s" % (pid, args.replay))
         return 1
     return 0
+
+
+def selftest_traces_c03(traces):
+    out = []
+    base = next(t for t in traces if "-lock--" in t["id"] and t["init"]["prod"] in ("ntag", "ulc")
+                and any(e["a"] == "Return" and e["res"] == "True" for e in t["ev"][:12]))
+    t1 = json.loads(json.dumps(base))
+    for e in t1["ev"]:
+        if e["a"] == "Write" and e["c"] == "slock":
+            e["v"]["all"] = False                     # not every static lock bit set
+            break
+    t1["id"] = base["id"] + "#corrupt"
+    out.append(t1)
+    t2 = json.loads(json.dumps(base))
+    for i, e in enumerate(t2["ev"]):
+        if e["a"] == "Write" and e["c"] == "cc":
+            del t2["ev"][i]                           # the CC write the trace does not show
+            break
+    t2["id"] = base["id"] + "#dropped"
+    out.append(t2)
+    t3 = json.loads(json.dumps(base))
+    for e in t3["ev"]:
+        if e["a"] == "Write" and e["c"] == "dlock":
+            e["c"] = "u5"                             # a write outside the documented lock pages
+            break
+    else:
+        for e in t3["ev"]:
+            if e["a"] == "Write" and e["c"] == "slock":
+                e["c"] = "u5"
+                break
+    t3["id"] = base["id"] + "#elsewhere"
+    out.append(t3)
+    return out
